@@ -5,6 +5,7 @@ CONSTANTS
   Aborting = {}
   NT = 2
   Registrar = 3
+  Collector = 0
   Mutant = "none"
 VIEW View
 CHECK_DEADLOCK FALSE
